@@ -769,7 +769,7 @@ def _decorate_inline(context, fn):
     return decorate_render
 
 
-def _include_file(context, uri, calling_uri, **kwargs):
+def _include_file(context, uri, calling_uri, /, **kwargs):
     """locate the template from the given uri and include it in
     the current output."""
 
@@ -892,7 +892,7 @@ def _kwargs_for_callable(callable_, data):
     return kwargs
 
 
-def _kwargs_for_include(callable_, data, **kwargs):
+def _kwargs_for_include(callable_, data, /, **kwargs):
     argspec = compat.inspect_getargspec(callable_)
     namedargs = argspec[0] + [v for v in argspec[1:3] if v is not None]
     for arg in namedargs:
@@ -901,7 +901,7 @@ def _kwargs_for_include(callable_, data, **kwargs):
     return kwargs
 
 
-def _render_context(tmpl, callable_, context, *args, **kwargs):
+def _render_context(tmpl, callable_, context, /, *args, **kwargs):
     import mako.template as template
 
     # create polymorphic 'self' namespace for this
